@@ -482,7 +482,7 @@ func TestCheck(t *testing.T) {
 	defer r.Done()
 	fixture.FrontendInit()
 	// Part A
-	nRand := r.Env.N(0, 1200)
+	nRand := r.Env.N(0, 3000)
 	nA := len(fixedHosts) + nRand
 	for i := 0; i < nA; i++ {
 		if !r.Mine(i) {
@@ -505,7 +505,7 @@ func TestCheck(t *testing.T) {
 		c.End()
 	}
 	// Part B
-	nB := r.Env.N(4*len(templates), 3000)
+	nB := r.Env.N(4*len(templates), 8000)
 	for k := 0; k < nB; k++ {
 		i := nA + k
 		if !r.Mine(i) {
